@@ -21,6 +21,10 @@
 //   -w     K:SP  blocked thread K waits with stack pointer SP (0, all-ones, unmapped, …); K:-OFF = OFF bytes below the
 //          start of its own stack mapping, i.e. inside the 17 inaccessible guard pages in front of it
 //   -D     K:HEXNAME  bytes of the K-th synthetic link_map's name (any bytes, e.g. not valid UTF-8)
+//   -Z     the thread-group leader (main) exits once everything is set up: the process lives on in its other threads,
+//          its leader is a zombie (never seen stopped, cannot be attached)
+//   -V MS  one more thread that is, almost all the time, the parent of a vfork child living MS milliseconds: it cannot
+//          act on a stop request until the child is gone (slow to stop); listed as a thread with spin=2
 //   -g     install a counting handler for SIGRTMIN+1 (per-thread counters in the shared page)
 //
 // Prints one JSON line describing itself, then "ready".
@@ -40,6 +44,8 @@
 #include <sys/stat.h>
 #include <sys/syscall.h>
 #include <unistd.h>
+#include <sys/wait.h>
+#include <time.h>
 
 #define MAXT 80
 
@@ -122,6 +128,8 @@ static int nlmods;
 static int forced[MAXT];
 static uint64_t forced_sp[MAXT];
 static int forced_rel[MAXT];
+static int vfork_ms = 0, leader_exits = 0;
+static int is_slow[MAXT];
 static char dname[64][64];
 static int dname_len[64];
 #define GUARD_PAGES 17
@@ -167,6 +175,20 @@ static void *thread_main(void *arg) {
     memcpy(nm, names[idx], name_len[idx] > 15 ? 15 : name_len[idx]);
     prctl(PR_SET_NAME, nm, 0, 0, 0);
   }
+  if (is_slow[idx]) {
+    __atomic_store_n(&sh->regs[idx].ready, 1, __ATOMIC_SEQ_CST);
+    for (;;) {
+      pid_t c = vfork();
+      if (c == 0) {
+        // the child shares our memory and stack until it exits; it only sleeps
+        struct timespec ts = { vfork_ms / 1000, (long)(vfork_ms % 1000) * 1000000L };
+        syscall(SYS_nanosleep, &ts, NULL);
+        _exit(0);
+      }
+      if (c > 0) { int st; waitpid(c, &st, 0); }
+      sh->regs[idx].counter++;
+    }
+  }
   if (is_spin[idx])
     vt_spin(&sh->regs[idx]);
   else
@@ -191,7 +213,7 @@ int main(int argc, char **argv) {
   memset(sh, 0, sizeof *sh);
 
   int c;
-  while ((c = getopt(argc, argv, "t:s:n:o:S:r:m:M:F:d:gw:D:")) != -1) {
+  while ((c = getopt(argc, argv, "t:s:n:o:S:r:m:M:F:d:gw:D:ZV:")) != -1) {
     switch (c) {
       case 't': nblock = atoi(optarg); break;
       case 's': nspin = atoi(optarg); break;
@@ -309,10 +331,12 @@ int main(int argc, char **argv) {
       case 'F': nfds = atoi(optarg); break;
       case 'd': ndso = atoi(optarg); break;
       case 'g': want_sig = 1; break;
+      case 'Z': leader_exits = 1; break;
+      case 'V': vfork_ms = atoi(optarg); break;
       default: return 2;
     }
   }
-  nthreads_total = 1 + nblock + nspin;
+  nthreads_total = 1 + nblock + nspin + (vfork_ms > 0 ? 1 : 0);
   if (nthreads_total > MAXT) return 2;
 
   if (want_sig) {
@@ -378,6 +402,7 @@ int main(int argc, char **argv) {
     if (forced[i]) { sh->regs[i].sp_forced = 1; sh->regs[i].adj = forced_sp[i]; }
     sh->regs[i].below_ptr = nregions > 0 ? regions[0].addr + 8 : 0;
     is_spin[i] = i > nblock;
+    is_slow[i] = vfork_ms > 0 && i == nthreads_total - 1;
   }
   for (int i = 1; i < nthreads_total; i++) {
     pthread_attr_t at;
@@ -409,7 +434,7 @@ int main(int argc, char **argv) {
          (unsigned long long)(uintptr_t)sh, sizeof(struct vt_regs), nblock, nspin);
   for (int i = 0; i < nthreads_total; i++) {
     printf("%s{\"idx\":%d,\"tid\":%d,\"spin\":%d,\"regs_addr\":%llu,\"pipe_w\":%d,\"stack_lo\":%llu,\"stack_hi\":%llu,\"sig_addr\":%llu,\"name_hex\":\"",
-           i ? "," : "", i, sh->tids[i], is_spin[i], (unsigned long long)(uintptr_t)&sh->regs[i], sh->pipes[i][1],
+           i ? "," : "", i, sh->tids[i], is_slow[i] ? 2 : is_spin[i], (unsigned long long)(uintptr_t)&sh->regs[i], sh->pipes[i][1],
            (unsigned long long)stack_lo[i], (unsigned long long)stack_hi[i], (unsigned long long)(uintptr_t)&sh->sigcount[i]);
     for (int k = 0; k < name_len[i]; k++) printf("%02x", (unsigned char)names[i][k]);
     printf("\"}");
@@ -447,6 +472,7 @@ int main(int argc, char **argv) {
   printf("]}}\nready\n");
   fflush(stdout);
   (void)extra_fds;
+  if (leader_exits) syscall(SYS_exit, 0);      // this thread only: the process lives on in the others
   vt_block(&sh->regs[0], sh->pipes[0][0], sh->rdbuf[0]);
   return 0;
 }
